@@ -223,6 +223,7 @@ def judge(case, results):
                 v.bad("swappiness-not-restored", "", "tick %d: swappiness writes %s, original %s" % (ti, [e["data"] for e in sw_writes], orig_sw))
             v.count("swappiness_writes", len(sw_writes))
         pending_poke = {}
+        reclaim_requested, over_budget = {}, set()
         for e in writes:
             if e["path"] == "/proc/sys/vm/swappiness":
                 continue
@@ -237,6 +238,21 @@ def judge(case, results):
             if rel not in matched:
                 v.bad("write-unmatched-cgroup", fn, "tick %d: wrote %s of %s, which `cgroup=%s` does not match (%s)" % (ti, fn, rel, args["cgroup"], sorted(matched)))
                 continue
+            if fn == "memory.reclaim" and m["immediate"] and e.get("fault") in (None, 11):
+                # EAGAIN from memory.reclaim means the kernel reclaimed less than asked, not nothing: whatever is requested
+                # from one cgroup within a tick, in one write or several, counts against the tick's budget
+                try:
+                    req = int(e["data"].split()[0])
+                except (ValueError, IndexError):
+                    req = 0
+                fl, _ = floor_ceiling(view, rel, args, m["tmp"])
+                tot = reclaim_requested.get(rel, 0) + req
+                reclaim_requested[rel] = tot
+                bound_t = mp * max(0, view.current(rel) - fl)
+                if tot > bound_t + 1 and rel not in over_budget:
+                    over_budget.add(rel)
+                    v.bad("reclaim-too-large", "several-requests-in-one-tick", "tick %d cgroup %s: memory.reclaim requests in this tick add up to %d bytes (last one %s); max_probe %s x (usage %d - floor %d) = %s" % (
+                        ti, rel, tot, "answered EAGAIN" if e.get("fault") else "accepted", mp, view.current(rel), fl, float(bound_t)))
             if e.get("blocked"):
                 v.count("writes_blocked_until_signal")
             if "fault" in e:
